@@ -276,9 +276,12 @@ def borrow(an: "Analysis", check_fn, wanted: dict[str, str], keep=None) -> None:
     """Re-use obligations of another property as obligations of the current one (a clause that is a
     necessary condition of several properties is checked under each of them).  `wanted` maps the
     foreign obligation id to the local id; `keep(finding)` may filter findings."""
+    if getattr(an, "_in_borrow", False):
+        return  # obligations a borrowed property borrows itself are not needed (and may be cyclic)
     sub = Analysis.__new__(Analysis)
     sub.__dict__.update(an.__dict__)
     sub.obligations = []
+    sub._in_borrow = True  # type: ignore[attr-defined]
     check_fn(sub)
     for o in sub.obligations:
         if o.id not in wanted:
